@@ -104,8 +104,23 @@ def schema12():
     return _schema12
 
 
+def frag_cycle(text):
+    """a cycle through two or three fragments (F_a -> F_b -> F_a): the fragment definitions are given the missing
+    spreads; a document with fewer than two fragments gets two new ones that spread each other"""
+    names = re.findall(r"fragment (F\d+) on (\w+) \{", text)
+    if len(names) < 2:
+        return text + " fragment Ca on A { x ...Cb } fragment Cb on A { o { ...Ca } }"
+    ring = names[:3] if len(names) >= 3 and len(text) % 2 else names[:2]
+    for k, (n, on) in enumerate(ring):
+        nxt, non = ring[(k + 1) % len(ring)]
+        spread = f"...{nxt}" if on == non else f"... on {non} {{ ...{nxt} }}"
+        text = re.sub(rf"fragment {n} on {on} \{{", f"fragment {n} on {on} {{ {spread} ", text, count=1)
+    return text
+
+
 def mutate_doc(text, rnd):
     ops = [
+        frag_cycle, frag_cycle,
         lambda t: re.sub(r"\b(x|y|s|a|b)\b", "nope", t, count=1),                                  # unknown field
         lambda t: re.sub(r"\(req: [^)]*\)", "", t, count=1),                                       # drop a required argument
         lambda t: re.sub(r": (\d+)", r': "\1"', t, count=1),                                       # literal of another kind
@@ -205,11 +220,20 @@ def _chunk(jobs):
                 variants.append([mid(e) for e in validate(schema, vdoc, max_errors=10000)])
             total = len(full)
             limited = []
-            for nlim in sorted({0, 1, 2, 5, max(0, total - 1), total}):
+            # every abort point of a document with few errors (an abort unwinds through whatever rule is reporting)
+            for nlim in (range(total + 1) if total <= 8 else sorted({0, 1, 2, 5, max(0, total - 1), total})):
                 res = validate(schema, doc, max_errors=nlim)
                 aborted = bool(res) and res[-1].message.startswith("Too many validation errors")
                 limited.append({"n": nlim, "errors": [eid(e) for e in (res[:-1] if aborted else res)], "aborted": aborted})
             unchanged = ast_to_dict(doc, locations=True) == snap_doc and print_schema(schema) == snap_schema
+            # history independence: after the aborted runs the same call still gives the same list, and so does every rule alone
+            after = [eid(e) for e in validate(schema, doc, max_errors=10000)]
+            if after != all_ids:
+                again = after
+            else:
+                alone_after = [[eid(e) for e in validate(schema, doc, [r], max_errors=10000)] for r in rules]
+                if alone_after != alone:
+                    again = [0]
             out.append({"all": all_ids, "alone": alone, "subsets": subsets, "again": again, "msgs": msgs, "variants": variants, "limited": limited,
                         "unchanged": unchanged, "_meta": {"seed": sd, "kind": kind, "query": text[:400], "n_errors": total}})
         except Exception as e:  # noqa: BLE001
